@@ -27,6 +27,11 @@ type Violation struct {
 	Seed     uint64          `json:"seed"`
 	Replay   string          `json:"replay,omitempty"`
 	Spec     json.RawMessage `json:"spec,omitempty"`
+	// where the episode sat in its worker (for prefix replays of state carried across episodes)
+	Episode  int    `json:"episode"`
+	Worker   int    `json:"worker"`
+	Workers  int    `json:"workers"`
+	BaseSeed uint64 `json:"base_seed"`
 }
 
 type Stats struct {
@@ -41,6 +46,8 @@ type Stats struct {
 	Trouble    []string          `json:"trouble"` // harness-level problems (exit 2)
 	TranscriptSum uint64         `json:"transcript_sum"` // order-independent digest of all episode transcripts
 	distinct   map[uint64]struct{}
+	apiEscalations []C01Spec
+	APIEsc     []C01Spec `json:"api_escalations,omitempty"`
 }
 
 func newStats() *Stats {
@@ -232,7 +239,20 @@ func minimise(def *CheckDef, st *Stats, tier string, seed uint64, spec interface
 	return spec
 }
 
+// prefixSpec replays the episodes a worker executed before (and including) a failing one, for
+// violations that depend on state the code under test carried over from earlier episodes in the
+// same process (a process-wide cache, say): worker Worker of Workers, base seed BaseSeed, episodes
+// From..Episode (step Workers).
+type prefixSpec struct {
+	Worker   int    `json:"worker"`
+	Workers  int    `json:"workers"`
+	BaseSeed uint64 `json:"base_seed"`
+	From     int    `json:"from"`
+	Episode  int    `json:"episode"`
+}
+
 type replayFile struct {
+	Prefix   *prefixSpec     `json:"prefix,omitempty"`
 	Property string          `json:"property"`
 	Class    string          `json:"class"`
 	Key      string          `json:"key"`
@@ -262,7 +282,7 @@ func outRoot() string {
 func writeReplay(v *Violation, tier string, spec interface{}) {
 	raw, _ := json.Marshal(spec)
 	v.Spec = raw
-	rf := replayFile{v.Property, v.Class, v.Key, v.Seed, tier, v.Detail, raw}
+	rf := replayFile{Property: v.Property, Class: v.Class, Key: v.Key, Seed: v.Seed, Tier: tier, Detail: v.Detail, Spec: raw}
 	b, _ := json.MarshalIndent(rf, "", " ")
 	dir := filepath.Join(outRoot(), "replays")
 	os.MkdirAll(dir, 0755)
@@ -372,8 +392,12 @@ func workerMain(def *CheckDef, tier string, w, W int, out string) int {
 			_, tr2, trouble2 := runSpec(def, st, tier, eseed, spec, true, scratch)
 			st.Counters["episodes_run_twice"]++
 			if trouble2 == "" && tr1 != tr2 {
-				st.Trouble = append(st.Trouble, fmt.Sprintf("episode %d seed %d: two executions of the same episode differ (transcripts %x vs %x): a source of nondeterminism the simulator does not own; cannot decide", i, eseed, tr1, tr2))
-				break
+				// not a violation by itself (index-order nondeterminism is harmless to users); it makes the
+				// run inconclusive (exit 2) unless some episode shows a real violation
+				st.Counters["episodes_differing_between_two_executions"]++
+				if st.Counters["episodes_differing_between_two_executions"] <= 2 {
+					st.Trouble = append(st.Trouble, fmt.Sprintf("episode %d seed %d: two executions of the same episode differ (transcripts %x vs %x): a source of nondeterminism or carried-over state the simulator does not own; cannot decide", i, eseed, tr1, tr2))
+				}
 			}
 		}
 		seenKeys := map[string]bool{}
@@ -403,6 +427,7 @@ func workerMain(def *CheckDef, tier string, w, W int, out string) int {
 			}
 			raw, _ := json.Marshal(min)
 			vv.Spec = raw
+			vv.Episode, vv.Worker, vv.Workers, vv.BaseSeed = i, w, W, seed
 			st.Violations = append(st.Violations, vv)
 		}
 		if len(st.Violations) >= maxViol*4 {
@@ -412,6 +437,10 @@ func workerMain(def *CheckDef, tier string, w, W int, out string) int {
 	for h := range st.distinct {
 		st.Distinct = append(st.Distinct, h)
 	}
+	if len(st.apiEscalations) > 4 {
+		st.apiEscalations = st.apiEscalations[:4]
+	}
+	st.APIEsc = st.apiEscalations
 	st.Counters["probe_calls"] += int64(probeCalls)
 	b, _ := json.Marshal(st)
 	if err := os.WriteFile(out, b, 0644); err != nil {
@@ -581,6 +610,38 @@ func parentMain(def *CheckDef, tier string) int {
 			} else if err != nil {
 				code = 2
 			}
+			if code != 1 && v.Workers > 0 {
+				// the violation may depend on state carried over from earlier episodes of its worker
+				// process: replay the worker's episodes up to the failing one, shortest suffix first
+				ok := false
+				for back := 1; ; back *= 4 {
+					from := v.Episode - back*v.Workers
+					if from < v.Worker {
+						from = v.Worker
+					}
+					px := &prefixSpec{v.Worker, v.Workers, v.BaseSeed, from, v.Episode}
+					rf := replayFile{Prefix: px, Property: v.Property, Class: v.Class, Key: v.Key, Seed: v.Seed, Tier: tier, Detail: v.Detail}
+					b, _ := json.MarshalIndent(rf, "", " ")
+					os.WriteFile(v.Replay, b, 0644)
+					cmd := exec.Command(exe, "replay", v.Replay)
+					outp, err = cmd.CombinedOutput()
+					code = 0
+					if ee, ok2 := err.(*exec.ExitError); ok2 {
+						code = ee.ExitCode()
+					}
+					if code == 1 {
+						ok = true
+						fmt.Printf("note: the violation needs state carried over from earlier episodes in the same process; replay file re-runs episodes %d..%d (step %d) of worker %d\n", from, v.Episode, v.Workers, v.Worker)
+						break
+					}
+					if from == v.Worker {
+						break
+					}
+				}
+				if !ok {
+					code = 2
+				}
+			}
 			if code != 1 {
 				fmt.Printf("TROUBLE: replay of %s in a fresh process did not reproduce (exit %d):\n%s\n", v.Replay, code, tail(string(outp), 2000))
 				trouble = true
@@ -635,6 +696,7 @@ func mergeStats(t, s *Stats) {
 		}
 	}
 	t.Violations = append(t.Violations, s.Violations...)
+	t.apiEscalations = append(t.apiEscalations, s.APIEsc...)
 	t.Trouble = append(t.Trouble, s.Trouble...)
 }
 
@@ -700,10 +762,13 @@ func replayMain(path string) int {
 		fmt.Println("unknown property in replay file:", rf.Property)
 		return 2
 	}
-	spec, err := def.Decode(rf.Spec)
-	if err != nil {
-		fmt.Println("cannot decode spec:", err)
-		return 2
+	var spec interface{}
+	if rf.Prefix == nil {
+		spec, err = def.Decode(rf.Spec)
+		if err != nil {
+			fmt.Println("cannot decode spec:", err)
+			return 2
+		}
 	}
 	scratch := os.Getenv("VERIF_SCRATCH")
 	if scratch == "" {
@@ -719,7 +784,29 @@ func replayMain(path string) int {
 	installSimulator()
 	installOrderHooks()
 	st := newStats()
-	vs, _, trouble := runSpec(def, st, rf.Tier, rf.Seed, spec, false, scratch)
+	var vs []Violation
+	trouble := ""
+	if rf.Prefix != nil {
+		px := rf.Prefix
+		for i := px.From; i <= px.Episode; i += px.Workers {
+			eseed := mix(px.BaseSeed, def.ID, i)
+			var sp interface{}
+			if def.GenI != nil {
+				sp = def.GenI(eseed, rf.Tier, i)
+			} else {
+				sp = def.Gen(eseed, rf.Tier)
+			}
+			evs, _, tr := runSpec(def, st, rf.Tier, eseed, sp, false, scratch)
+			if def.TwiceEvery > 0 && i%def.TwiceEvery == 0 && len(evs) == 0 && tr == "" {
+				runSpec(def, st, rf.Tier, eseed, sp, true, scratch) // the worker ran this episode twice as well
+			}
+			if i == px.Episode {
+				vs, trouble = evs, tr
+			}
+		}
+	} else {
+		vs, _, trouble = runSpec(def, st, rf.Tier, rf.Seed, spec, false, scratch)
+	}
 	out := capt.realOut
 	if trouble != "" {
 		fmt.Fprintln(out, "TROUBLE:", trouble)
